@@ -65,6 +65,8 @@ ASSUMPTIONS = [
     "pkg-style declarations are spelled at column 0, inside try/except (the guarded pkg_resources/pkgutil idiom), inside `if True:`, after a "
     "docstring/comment, with either quote; directory symlinks point to a sibling directory of the same package (no loops) and are judged like "
     "any directory (CPython's finders and pkgutil follow them)",
+    "__init__.py bodies may define attributes/functions/classes and import names, some equal to sub-modules or sub-packages of that package "
+    "(no effect on CPython's finders; the sub-module must still be loaded at its dotted path)",
     "search-path directory names are character prefixes of one another (sp, sp1, sp10, sp1x, sp10y) in drawn order",
     "history clause: the loader's modules/lines collections are replaced before each request (loading one name twice into one collection "
     "is not judged); an inserted/appended search path is not scanned for .pth files by either side",
@@ -445,7 +447,17 @@ def _known_pkgutil_from(case, fail) -> bool:
     return bool(fs.kf_tops(case["layout"])) and fail.clause in ("loaded-is-importable", "first-match-wins", "walker-found-is-loaded", "classified")
 
 
-KNOWN = {PYI_ONLY: _known_pyi_only, PKGUTIL_FROM: _known_pkgutil_from}
+ALIAS_DIR = "imported-name-equals-initless-directory"
+
+
+def _known_alias_dir(case, fail) -> bool:
+    """`pkg/__init__.py` imports a name (`from os import path as tools`) equal to a sub-directory `pkg/tools/` that
+    has no `__init__.py` but holds .py files: while placing those files the loader asks the *alias* whether it is a
+    namespace package, which dereferences it: AliasResolutionError escapes from load()."""
+    return fail.bucket.startswith("total/raises:AliasResolutionError") and bool(fs.alias_named_like_initless_dir(case["layout"]))
+
+
+KNOWN = {PYI_ONLY: _known_pyi_only, PKGUTIL_FROM: _known_pkgutil_from, ALIAS_DIR: _known_alias_dir}
 
 
 def strategy(ctx):
@@ -454,6 +466,8 @@ def strategy(ctx):
     def steer(case):
         if PYI_ONLY in ctx.known:
             case["layout"], case["steered"] = fs.steer_pyi_only(case["layout"])
+        if ALIAS_DIR in ctx.known:
+            case["layout"], case["steered_alias_dir"] = fs.steer_alias_named_like_initless_dir(case["layout"])
         if PKGUTIL_FROM in ctx.known:
             case["layout"], case["steered_kf"] = fs.steer_kf(case["layout"])
         return case
@@ -474,6 +488,8 @@ def run_shard(ctx) -> None:
     def describe(case):
         if case.get("steered"):
             ctx.excluded(PYI_ONLY, case["steered"])
+        if case.get("steered_alias_dir"):
+            ctx.excluded(ALIAS_DIR, case["steered_alias_dir"])
         if case.get("steered_kf"):
             ctx.excluded(PKGUTIL_FROM, case["steered_kf"])
         return _describe(case)
